@@ -188,6 +188,57 @@ def h_router(ctx, ops):
     ctx.observe("log", log)
 
 
+def h_compound(ctx, first, second):
+    """A compound RTCP datagram whose first packet makes its recipient unregister another endpoint
+    (a stop() racing with the dispatch): the later packets of the same datagram are routed against
+    the registrations as they are *then* - nothing reaches an endpoint that is already unregistered."""
+    import aiortc.rtcdtlstransport as dtlsmod
+
+    class Stand:
+        def __init__(self):
+            self._rtp_router = RtpRouter()
+
+        def _RTCDtlsTransport__log_debug(self, *a):
+            pass
+
+    d = Stand()
+    router = d._rtp_router
+    s1, s2 = Obj("S1"), Obj("S2")
+    ssrc1 = ctx.int("s1_ssrc", 0, U32)
+    ssrc2 = ctx.int("s2_ssrc", 0, U32)
+    ctx.assume(ssrc1 != ssrc2, "two senders, two SSRCs")
+    s1._ssrc, s2._ssrc = ssrc1, ssrc2
+    got = {"S1": [], "S2": []}
+    gone = []
+
+    async def h1(packet):
+        got["S1"].append(type(packet).__name__)
+        if not gone:
+            router.unregister_sender(s2)  # e.g. the application stops the other sender right now
+            gone.append(s2)
+
+    async def h2(packet):
+        got["S2"].append(type(packet).__name__)
+
+    s1._handle_rtcp_packet, s2._handle_rtcp_packet = h1, h2
+    router.register_sender(s1, ssrc1)
+    router.register_sender(s2, ssrc2)
+
+    def mk(kind, target):
+        if kind == "nack":
+            return RtcpRtpfbPacket(fmt=1, ssrc=1, media_ssrc=target, lost=[7])
+        if kind == "pli":
+            return RtcpPsfbPacket(fmt=1, ssrc=1, media_ssrc=target)
+        return RtcpRrPacket(ssrc=1, reports=[_rinfo(target)])
+
+    data = sx.to_bytes(mk(first, ssrc1)) + sx.to_bytes(mk(second, ssrc2))
+    sx.run(dtlsmod.RTCDtlsTransport._handle_rtcp_data(d, data))
+    ctx.reach("compound-dispatched")
+    ctx.check(len(got["S1"]) == 1, "first-packet-reaches-its-sender")
+    ctx.check(got["S2"] == [], "nothing-routed-to-an-endpoint-unregistered-during-the-dispatch", repr(got["S2"]))
+    ctx.observe("n", len(got["S1"]))
+
+
 def _jobs(tier):
     import itertools
 
@@ -222,6 +273,7 @@ ENC = [
 ]
 
 HARNESSES = {
+    "compound": Harness("compound", h_compound, lambda tier: [{"first": a, "second": b} for a in ("nack", "rr") for b in ("pli", "rr", "nack")], style="STEP", bounds="compound datagram of two RTCP packets (NACK/RR then PLI/RR/NACK) for two senders with symbolic distinct SSRCs; the first recipient unregisters the second while it handles its packet", encoded=["aiortc.rtcdtlstransport:RTCDtlsTransport._handle_rtcp_data", "aiortc.rtcdtlstransport:RtpRouter.route_rtcp"], twin="compound-dispatched", opts={"samples": 1}),
     "router": Harness(
         "router",
         h_router,
